@@ -124,6 +124,8 @@ NATIVE_S = float(os.environ.get('PYVC_NATIVE_S', '300'))
 
 def _claimed(prop, oid):
     """claim patterns; a pattern starting with '!' excludes (clauses of other properties living in a shared contract)"""
+    if '.undeclared_parameter_' in oid:
+        return True     # a call outside the callee's contract is never filtered away
     if any(fnmatch.fnmatchcase(oid, p[1:]) for p in prop.claims if p.startswith('!')):
         return False
     return any(fnmatch.fnmatchcase(oid, p) for p in prop.claims if not p.startswith('!'))
@@ -290,6 +292,14 @@ def run_property(pid, tier='quick', update_ledger=False, verbose=False):
                             rec['replay'] = found
                         else:
                             suffix = ' no-failing-input-found'
+                            if ob['kind'] == 'coverage':
+                                # the code left the domain the contracts cover (a call outside a callee's contract) and no
+                                # failing input was found on the real code: undecided, not a violation
+                                violations -= 1
+                                ob['status'] = 'undecided'
+                                ob['detail'] = 'outside contract coverage, no failing input found: ' + ob['detail']
+                                undecided.append(oid)
+                                continue
                 except Exception:
                     rec['replay_error'] = traceback.format_exc()
                     suffix = ' no-failing-input-found'
